@@ -375,11 +375,11 @@ class Spec:
                 elif op[0] == "app":
                     st.walker.append(st.fresh(op[1]))
                 elif op[0] == "del":
-                    pos = lb.focus_position if op[1] == "f" else (op[1] % len(body))
+                    pos = lb.focus_position if op[1] == "f" else op[1]
                     if st.wkind == "mini":
-                        st.walker.delete(pos)
+                        st.walker.delete(pos % len(body))
                     else:
-                        del st.walker[pos]
+                        del st.walker[pos]  # (-1 stays a negative index)
                 elif op[0] == "retext":
                     pos = lb.focus_position if op[1] == "f" else op[1]
                     w = st.body()[pos]
@@ -431,7 +431,7 @@ def run(tier, R):
             continue
         seen.add(kl)
         for wk in ("focus", "simple", "mini"):
-            if wk != "focus" and len(kl) not in (0, 2, 3) and quick:
+            if wk != "focus" and len(kl) not in (0, 1, 2, 3) and quick:
                 continue
             for size in ((W, 1), (W, 3)) if quick else SIZES:
                 cfgs.append((wk, kl, size))
